@@ -102,6 +102,24 @@ CHECKS = {
         technique="TLA+ reference format spec + TLC-judged enumeration of decode/encode round trips on the real code",
         engine="isa",
     ),
+    "C16": dict(
+        category="model_checking",
+        text="Snapshot.tla states the property at the design level over the abstract machine of C12: saving and loading into a fresh machine is a "
+             "stuttering step (RoundTrip = identity for the full field set; TLC checks it in all 19822 reachable states, and with a smaller field set "
+             "names the states that break - the catalogue of snapshot points). Conformance, per implementation (Python PCE500Emulator, Rust "
+             "CoreRuntime through vh with a PKZIP shim): 64 (thorough 600) seeded scripts of 8-18 items (timers, ON key, matrix keys, IMR/ISR writes, "
+             "HALT, OFF, WAIT, RETI); EVERY script position is a snapshot point: the live machine is saved, a FRESH machine loads the bundle, both "
+             "get the next 6 script items, and the full projection (power state, registers, IMEM, RAM, LCD, keyboard, timers, interrupt "
+             "bookkeeping, counters) after the load and after every step is compared by TLC (JudgeSnapshot) component by component. Cross loading "
+             "(each core loads the other's bundle) compares the immediately visible state; bundle members, registers.bin length and "
+             "snapshot.json key sets are compared.",
+        design_ref="DESIGN.md section 4 (C16)",
+        note="Trusted: machine_harness.py, vh rt module, harness/rust/zip-shim (stands in for the zip crate, which is not available offline), TLC. "
+             "One defect repaired (fix: 0d9a836: Python bundles had no power state; Python could not load Rust bundles). Three open known findings "
+             "about cross loading / metadata.",
+        technique="TLA+ stuttering-step model checked by TLC + TLC-judged original-vs-restored traces from every snapshot point (code->spec)",
+        engine="machine",
+    ),
     "C17": dict(
         category="other",
         text="Complete comparison, evaluated by TLC (spec/tables/Tables.tla over the reference table spec/isa/SC62015Table.tla): all 256 "
@@ -264,7 +282,7 @@ ENGINES = [
     dict(name="isa", path="spec/isa", serves_properties=["C01", "C02", "C03", "C04", "C05", "C06", "C07", "C09"], kind_free_text="TLA+ SC62015 instruction format (table + grammar) and batch judges"),
     dict(name="lcd", path="spec/lcd", serves_properties=["C15"], kind_free_text="TLA+ HD61202 protocol + pixel map specs"),
     dict(name="sched", path="spec/sched", serves_properties=["C18"], kind_free_text="TLA+ virtual-time scheduler spec + trace spec"),
-    dict(name="machine", path="spec/machine", serves_properties=["C12", "C13"], kind_free_text="TLA+ timers / interrupts / machine specs + trace specs"),
+    dict(name="machine", path="spec/machine", serves_properties=["C12", "C13", "C16"], kind_free_text="TLA+ timers / interrupts / machine specs + trace specs"),
     dict(name="regs", path="spec/regs", serves_properties=["C08"], kind_free_text="TLA+ register-file state machine + trace spec"),
 ]
 
